@@ -499,6 +499,8 @@ class WithProp(HasTraits):
 
 
 CFG = {
+    # definitions made directly from the C type: they have NO metadata dictionary at all
+    "RawCTrait": lambda: CTrait(0), "RawEvent": lambda: CTrait(4),
     "Int": lambda: T.Int(3), "Float": lambda: T.Float(), "Str": lambda: T.Str("a"), "Range": lambda: T.Range(0.0, 1.0),
     "RangeInt": lambda: T.Range(0, 5), "Enum": lambda: T.Enum(1, 2, 3), "Tuple": lambda: T.Tuple(T.Int, T.Str),
     "List": lambda: T.List(T.Int, [1]), "Dict": lambda: T.Dict(T.Str, T.Int), "Set": lambda: T.Set(T.Int),
@@ -578,6 +580,14 @@ def defs_run(case, ctx):
     d1, d2 = repr(ct.default_value()), repr(c2.default_value())
     if d1 != d2 and " at 0x" not in d1:
         ctx.fail("definition/default-differs", "%s via %s: default %s, original %s" % (name, how, d2, d1))
+    # metadata: an undefined name reads the same on both, and the image takes new metadata like the original
+    a, b = outcome(lambda: ct.no_such_metadata_), outcome(lambda: c2.no_such_metadata_)
+    if a != b:
+        ctx.fail("definition/metadata-differs", "%s via %s: reading undefined metadata gives %r, original %r" % (name, how, b, a))
+    a = outcome(lambda: (setattr(ct, "note_", 3), ct.note_)[1])
+    b = outcome(lambda: (setattr(c2, "note_", 3), c2.note_)[1])
+    if a != b:
+        ctx.fail("definition/metadata-differs", "%s via %s: setting metadata gives %r, original %r" % (name, how, b, a))
     for attr in ("type", "is_property", "comparison_mode", "is_mapped", "modify_delegate"):
         if getattr(ct, attr) != getattr(c2, attr):
             ctx.fail("definition/attribute-differs", "%s via %s: %s is %r, original %r" % (name, how, attr, getattr(c2, attr), getattr(ct, attr)))
